@@ -511,6 +511,16 @@ class FrameTerm:
             self.x = max(0, self.x - max(1, nums[0] if nums else 1))
 
 
+def canon_cell(cp, pen):
+    """A terminal cell as far as it can be seen: on a blank only background, underline, standout,
+    strikethrough (and the foreground under standout); everything otherwise.  pen = [fg, bg, bold, italics,
+    underline, blink, standout, strikethrough], colours [0] | [1, n] | [2, r, g, b]."""
+    fg, bg, bold, it, ul, bl, rv, sk = pen
+    if cp == 32:
+        return [32, list(fg) if rv else [0], list(bg), 0, 0, ul, 0, rv, sk]
+    return [cp, list(fg), list(bg), bold, it, ul, bl, rv, sk]
+
+
 def spec_fields(a):
     return [int(a.foreground_true), int(a.foreground_high), int(a.foreground_basic), a.foreground_number,
             int(a.background_true), int(a.background_high), int(a.background_basic), a.background_number,
@@ -618,13 +628,14 @@ def large_h(desc):
 class C17(core.Check):
     pid = "C17"
     gen_modules = []
-    model_targets = ["theories/Model/AttrFlow.vo"]
+    model_targets = ["theories/Model/AttrFlow.vo", "theories/Model/TermRef.vo", "theories/Model/DrawScreen.vo",
+                     "theories/Model/AttrFlowE2E.vo"]
     prop_file = "theories/Properties/C17.v"
     extract_v = "Extract/C17X.v"
     allowed_axioms = set()
     design_ref = "DESIGN.md section 5, C17"
     technique = ("Coq theorems (structural induction over markup trees, layout segments, clipped rows, widget trees and palette "
-                 "histories; lia case analysis of the SGR decoder) about a hand-written executable model of "
+                 "histories; composition with property C04's draw_screen theorem; lia case analysis of the SGR decoder) about a hand-written executable model of "
                  "decompose_tagmarkup / apply_text_layout / trim_text_attr_cs / fill_attr_apply / AttrMap.render / register_palette / "
                  "_attrspec_to_escape; extracted-model correspondence; independent per-cell and SGR-decoding oracle")
     level_text = (
@@ -645,14 +656,19 @@ class C17(core.Check):
         "attrmap_replaces_exactly_listed / attrmap_focus_choice / nested_maps_compose (every widget tree of AttrMap, Pile, "
         "Columns over leaves); sgr_roundtrip (every AttrSpec with in-range colour numbers, every colour depth, "
         "bright-is-bold and bright-is-blink on/off); palette_resolves_full and palette_name_to_terminal (every history "
-        "of register_palette_entry / aliases / set_terminal_properties); undefined_name_defaults.  Nothing is refuted or "
+        "of register_palette_entry / aliases / set_terminal_properties); undefined_name_defaults; END TO END, composed with property C04's proved model of Screen.draw_screen and its "
+        "reference terminal (Model/DrawScreen.v, TermRef.v, PaintSpec.v, theorem draw_paints, imported read-only): "
+        "attrspec_to_escape_models_agree, draw_screen_sends_resolved_escape (after every palette history draw_screen's "
+        "model sends for a name exactly the escape this model keeps in _pal_escape), expected_cells_carry_run_pens and "
+        "markup_to_terminal (every markup, text, layout, width, palette history and synced screen/terminal state: after "
+        "draw_screen every terminal cell is visually equal to a cell whose pen is the palette entry, at the active depth, "
+        "of the attribute the markup gives the character occupying that column; premise canvas_row_reads - the row TEXT "
+        "and TextCanvas.content() - is outside both models and is checked on every generated canvas).  Nothing is refuted or "
         "partial (the four defects this check found were repaired: 0eea584, b5288ea, c165cd7, b2a34b1; their inputs are "
         "regression cases in corpus/C17).  Correspondence/oracle only: that the hand model matches the Python code (exact extracted-model comparison on "
         "every case); that a Text re-tagged with set_text while its canvases are alive (alone, in AttrMap, in "
         "AttrMap/Pile/Columns) shows the attributes of the CURRENT markup (compared with the model's fresh render and "
-        "judged by the oracle - the canvas cache itself is not modelled here); that whole frames written by "
-        "Screen.draw_screen (bottom-right cell trick, erase to end of line), read by a small terminal, give every cell "
-        "the pen of its own attribute's palette entry (oracle only - draw_screen is not in this model); "
+        "judged by the oracle - the canvas cache itself is not modelled here); "
         "widths/encodings of real characters, zero-width characters inside segments that are cut, "
         "Pile/Columns geometry.")
     level_note = (
@@ -669,7 +685,9 @@ class C17(core.Check):
             "live Text (alone / wrapped in AttrMap / in AttrMap(Pile(Columns))) rendered at the same size with all canvases "
             "kept alive; whole frames (1-3 rows, 2-8 columns, rows filled to the right edge with attribute changes at every "
             "position incl. before the corner cell, rows ending in blanks, back-colour-erase on/off, 16 and 256 colours, "
-            "unregistered names) through Screen.draw_screen decoded by a terminal; trees of AttrMap/AttrWrap "
+            "unregistered names) through Screen.draw_screen decoded by a terminal and compared cell by cell with the grid "
+            "that this property's palette model + C04's draw_screen model + C04's reference terminal predict; palette "
+            "entries with 'hN' colours around N = 15/16 and 87/88 at every depth; trees of AttrMap/AttrWrap "
             "(dict / single / focus maps, None keys and values) over Text/Pile/Columns; every 16-colour AttrSpec and "
             "sampled 88/256/true-colour ones x flags x bright-is-bold/blink through _attrspec_to_escape; palette "
             "histories (entries, aliases, set_terminal_properties) observed in draw_screen output; non-trivial = "
@@ -678,6 +696,8 @@ class C17(core.Check):
         "Coq 8.16.1 kernel (coqc); vm_compute only for closed examples and refutation witnesses",
         "extraction: ExtrOcamlBasic only; Z/positive stay Coq datatypes; OCaml 4.13.1; tools/driver/driver.ml",
         "hand-written model Model/AttrFlow.v (validated by this correspondence, not proved against Python)",
+        "property C04's hand-written models Model/DrawScreen.v, Model/TermRef.v, Model/PaintSpec.v and proofs (imported "
+        "read-only; validated by C04's own token-stream correspondence and here by the frame stream)",
         "Base/PyList.v slice_indices (Python slice clamping, validated by C16)",
         "urwid's own text layout, AttrSpec parsing, str_util widths and apply_target_encoding lengths, used as input data",
         "Python oracle in harness/props/c17.py including its SGR decoder and its small frame terminal (cursor addressing, "
@@ -698,6 +718,10 @@ class C17(core.Check):
         "replacing half of a double-width character must carry that character's attribute (judged for layout clipping and "
         "for canvas clipping; a zero-width character attached to the cut character with a different attribute makes the "
         "cell 'any')",
+        "end-to-end theorem: canvas_row_reads (the text of a canvas row is the characters of its segments plus fill blanks, "
+        "as many bytes as attribute positions; TextCanvas.content() gives each column the attribute of the first byte of "
+        "its character) is a premise - counted per case as 'e2e-premise canvas_row_reads:holds/FAILS'; Sync (C04) relates "
+        "the Screen object and the terminal; attribute names are integers >= 0",
         "clip theorem: row characters are 1 or 2 columns wide (zero-width characters are covered by correspondence/oracle only)",
     ]
 
@@ -739,6 +763,25 @@ class C17(core.Check):
         from urwid import str_util
         rows = content_rows(canv)
         self._short = sum(1 for _, bs in rows if str_util.calc_width(bs, 0, len(bs)) != canv.cols())
+        # the premise canvas_row_reads of the end-to-end theorem: as many text bytes as attribute positions, and
+        # content() gives every column the attribute of the first byte of the character occupying it
+        self._reads = True
+        try:
+            for bs, arow, crow_ in zip(canv._text, canv._attr, canv.content()):
+                pos = rle_expand([[id_of(a), n] for a, n in arow])
+                if len(pos) != len(bs):
+                    self._reads = False
+                want, i = [], 0
+                for ln, wd in row_chars(bs):
+                    want += [pos[i] if i < len(pos) else None] * wd
+                    i += ln
+                got = []
+                for a, _cs, t in crow_:
+                    got += [id_of(a)] * str_util.calc_width(t, 0, len(t))
+                if got != want:
+                    self._reads = False
+        except Exception:
+            self._reads = False
         return {"rows": [[[id_of(a), n] for a, n in line] for line in canv._attr]}, rows
 
     def impl_text(self, case):
@@ -847,8 +890,8 @@ class C17(core.Check):
             term = FrameTerm(case["cols"], len(case["lines"]))
             term.feed(data)
             self._stash = {"case": core.canon(case), "term": term}
-            return {"grid": [[[ord(c[0]) if c[0] else 0] + [c[1][0], c[1][1]] + c[1][2:] + [int(c[2])] for c in row]
-                             for row in term.grid], "problems": term.problems}
+            return {"grid": [[canon_cell(ord(c[0]) if c[0] else -1, c[1]) for c in row] for row in term.grid],
+                    "problems": term.problems}
 
     # ---- clipping of rendered rows
     def clip_regions(self, case):
@@ -1129,7 +1172,7 @@ class C17(core.Check):
                     out += oz(a) + [n]
                 return out + enc_layout(layout_py(case["ls"]))
         if k == "frame":
-            return None                  # draw_screen is not inside this model: judged by the oracle
+            return self.encode_frame(case)
         if k == "retag":
             pseudo = {"kind": "text", "m": case["steps"][-1], "w": case["w"], "align": case["align"],
                       "wrap": case["wrap"], "enc": case["enc"]}
@@ -1167,6 +1210,44 @@ class C17(core.Check):
         if k == "palette":
             return self.encode_palette(case)
         raise core.MachineryError("unknown kind " + k)
+
+    def frame_pal_ops(self, case):
+        ops = [["props", case["depth"], bool(case["bib"]), True]] if case["depth"] != 16 else []
+        for nm, fg, bg in case["pal"]:
+            if case["depth"] == 16:
+                ops.append(["reg", nm, fg, bg, None, None, None])
+            else:
+                ops.append(["reg", nm, "default", "default", None, fg, bg])
+        return ops
+
+    def encode_frame(self, case):
+        """This property's palette model builds the attribute table; the draw_screen model and reference
+        terminal of property C04 (imported read-only) turn the canvas content into the terminal grid."""
+        import urwid
+        from urwid import str_util
+        with Enc("utf-8"):
+            try:
+                pile = urwid.Pile([urwid.Text(build_markup(m), wrap="clip") for m in case["lines"]])
+                canv = pile.render((case["cols"],))
+                content = list(canv.content())
+            except Exception:
+                return None
+            if len(content) != len(case["lines"]):
+                return None
+            pal = self.encode_palette({"kind": "palette", "bib": case["bib"], "bbb": False,
+                                       "ops": self.frame_pal_ops(case), "queries": []})
+            out = [101] + pal[1:] + [int(bool(case["bce"])), self.FRAME_NAMES + 1, 1]
+            out += [1, case["cols"], len(content), len(content), -1, 0, 0, 0, len(content)]
+            for row in content:
+                out.append(len(row))
+                for a, cs, bs in row:
+                    if cs is not None:
+                        return None
+                    text = bs.decode("utf-8")
+                    out += [0 if a is None else id_of(a) + 1, 0, len(text)]
+                    for ch in text:
+                        out += [ord(ch), str_util.get_char_width(ch)]
+            return out
 
     def encode_maps(self, case):
         with Enc("utf-8"):
@@ -1306,6 +1387,36 @@ class C17(core.Check):
             if k == "retag":
                 n = nxt()
                 return {"rows": [rle_merge(rle_expand(nrle())) for _ in range(n)]}
+            if k == "frame":
+                nerr = nxt()
+                errs = [nxt() for _ in range(nerr)]
+                ferr = nxt()
+                ntok = nxt()
+                for _ in range(ntok):
+                    nxt()
+                nsnap = nxt()
+                snap = [nxt() for _ in range(nsnap)]
+                if any(errs) or ferr:
+                    return {"err": "model:%r/%r" % (errs, ferr)}
+                cols, rows = snap[0], snap[1]
+                pos = 11 + 9
+
+                def col(v):
+                    return [0] if v[0] == 0 else ([1, v[1]] if v[0] in (1, 2) else [2, v[1], v[2], v[3]])
+                grid = []
+                for _y in range(rows):
+                    row = []
+                    for _x in range(cols):
+                        cp = snap[pos]
+                        at = snap[pos + 3:pos + 12]
+                        ncomb = snap[pos + 12]
+                        pos += 13 + ncomb
+                        fl = at[8]
+                        pen = [col(at[0:4]), col(at[4:8]), fl & 1, (fl >> 1) & 1, (fl >> 2) & 1, (fl >> 3) & 1,
+                               (fl >> 4) & 1, (fl >> 5) & 1]
+                        row.append(canon_cell(cp, pen))
+                    grid.append(row)
+                return {"grid": grid, "problems": []}
             if k == "clip":
                 clips = []
                 st = self._stash if self._stash.get("case") == core.canon(case) else None
@@ -1852,24 +1963,71 @@ class C17(core.Check):
     def oracle_escape(self, case, res, st):
         return self.compare_spec("escape", res["ps"], st["spec"], case["bib"], case["bbb"])
 
+    @staticmethod
+    def doc_large_h(desc):
+        """register_palette_entry's documentation: 'hX' where X > 15 are different in 88/256 colour mode."""
+        for part in (desc or "").split(","):
+            m = re.fullmatch(r"h(\d+)", part.strip())
+            if m and int(m.group(1)) > 15:
+                return True
+        return False
+
+    def palette_expectation(self, case, res):
+        """From the registration STRINGS and the documented rules alone (never from screen._palette): which
+        (foreground, background, colours) describes each name at the colour depth active in the end.
+        16 colours: foreground/background; monochrome: mono/default; 88, 256 and 2**24 colours:
+        foreground_high/background_high (falling back on foreground/background), except that at 88 colours an
+        entry using 'hN' with N > 15 falls back on the 16-colour pair; an alias is a copy of its target as it
+        was when the alias was made."""
+        env = {None: ("default", "default", None, None, None)}
+        depth = 16
+        for op, err in zip(case["ops"], res["errs"]):
+            if err:
+                continue
+            if op[0] == "reg":
+                env[op[1]] = tuple(op[2:7])
+            elif op[0] == "alias":
+                if op[2] in env:
+                    env[op[1]] = env[op[2]]
+            elif op[0] == "props":
+                depth = op[1]
+        out = {}
+        for nm, (fg, bg, mono, fgh, bgh) in env.items():
+            fgh2 = fg if fgh is None else fgh
+            bgh2 = bg if bgh is None else bgh
+            if depth == 16:
+                out[nm] = (fg, bg, 16)
+            elif depth == 1:
+                out[nm] = ("default" if mono is None else mono, "default", 1)
+            elif depth == 88 and (self.doc_large_h(fgh2) or self.doc_large_h(bgh2)):
+                out[nm] = (fg, bg, 16)
+            else:
+                out[nm] = (fgh2, bgh2, depth)
+        return out, depth
+
     def oracle_palette(self, case, res, st):
         import urwid
         s = st["screen"]
-        idx = DEPTH_IDX[s.colors]
         msgs = []
+        expect, depth = self.palette_expectation(case, res)
+        if depth != s.colors:
+            return ["palette: the screen runs at %r colours, set_terminal_properties asked for %r" % (s.colors, depth)]
         for q, ps in zip(case["queries"], res["esc"]):
+            last = None
             if isinstance(q, list):
                 a = urwid.AttrSpec(*q[1:])
                 what = "palette: AttrSpec attribute"
             else:
-                nm = name_of(q)
-                last = None
                 for op, err in zip(case["ops"], res["errs"]):
                     if op[0] in ("reg", "alias") and op[1] == q and not err:
                         last = op
-                if nm in s._palette:
-                    a = s._palette[nm][idx]
-                    what = "palette: alias name" if (last is not None and last[0] == "alias") else "palette: registered name"
+                if q in expect:
+                    try:
+                        a = urwid.AttrSpec(*expect[q])      # colour parsing itself belongs to the colour property
+                    except Exception:
+                        continue
+                    what = ("palette: alias name" if (last is not None and last[0] == "alias") else "palette: registered name") \
+                        + " at %d colours (entry %r/%r)" % (depth, expect[q][0], expect[q][1])
                 else:
                     a = urwid.AttrSpec("default", "default")
                     what = "palette: undefined name"
@@ -1946,6 +2104,8 @@ class C17(core.Check):
             if case["kind"] == "text":
                 inc("wrap:" + case["wrap"])
                 inc("align:" + case["align"])
+        if case["kind"] in ("text", "layout") and "rows" in res:
+            inc("e2e-premise canvas_row_reads:" + ("holds" if getattr(self, "_reads", False) else "FAILS"))
         if case["kind"] in ("text", "layout") and "rows" in res and getattr(self, "_short", 0):
             inc("obs:content_row_narrower_than_canvas(zero-length attribute run)")
         for sig, n in self._sig_count.items():
@@ -2301,11 +2461,17 @@ class C17(core.Check):
                 hi = rng.random() < 0.5
                 fgh = ",".join([self.colour_for(rng, 256)] + self.settings(rng)) if hi else None
                 bgh = self.colour_for(rng, 256, True) if hi else None
+                if hi and rng.random() < 0.35:       # the boundary of "hN is the same colour at 88 and 256 colours"
+                    edge = ["h14", "h15", "h16", "h17", "h86", "h87", "h88"]
+                    if rng.random() < 0.5:
+                        fgh = ",".join([rng.choice(edge)] + self.settings(rng))
+                    else:
+                        bgh = rng.choice(edge)
                 ops.append(["reg", nm, fg, bg, mono, fgh, bgh])
             elif r < 0.8:
                 ops.append(["alias", rng.choice(pool), rng.choice(pool + [None, 7])])
             else:
-                ops.append(["props", rng.choice(DEPTHS), rng.random() < 0.5, rng.random() < 0.8])
+                ops.append(["props", rng.choice(DEPTHS + [88]), rng.random() < 0.5, rng.random() < 0.8])
         queries = [rng.choice(pool + [None, 7, 8]) for _ in range(rng.choice([1, 2, 3]))]
         if rng.random() < 0.3:
             depth = 16
